@@ -627,8 +627,9 @@ impl<RW: QueueRW<T>, T> InnerRecv<RW, T> {
                 {
                     self.queue.manager.signal.set_reader(SeqCst);
                 }
-                self.queue.manager.remove_token(self.token);
             }
+            // every handle owns a token, not only the last one of its stream
+            self.queue.manager.remove_token(self.token);
             fence(SeqCst);
             f()
         }
